@@ -270,6 +270,8 @@ class DocGen:
         self.nstream = 0
         self.ops = []  # (name, kind, text)
         self.labels_parent = {}  # label -> parent label or None / "?" when ambiguous
+        self.field_parts = {}  # text of an object-field selection -> (head, [sub-selections])
+        self.last_sels = []
         self.features = set()
 
     # --- input literals -------------------------------------------------------------
@@ -438,13 +440,17 @@ class DocGen:
         alias = fname + "_" + "_".join(alias_bits) if alias_bits else None
         directives += self.skip_include(used)
         sub = ""
+        parts = None
         if named not in LEAF_NAMES:
             sub = " " + self.selection_set(named, depth + 1, used)
+            parts = self.last_sels
         head = (f"{alias}: " if alias else "") + fname
         if argtxt:
             head += "(" + ", ".join(argtxt) + ")"
         if directives:
             head += " " + " ".join(directives)
+        if parts is not None:
+            self.field_parts[head + sub] = (head, parts)
         return head + sub
 
     def skip_include(self, used):
@@ -581,6 +587,35 @@ class DocGen:
                 self.features.add("fragment_spread")
         if not sels:
             sels.append("__typename")
+        if (self.incremental and root_kind not in ("mutation", "subscription")
+                and not ctx.get("no_defer") and t.draw(3, "echo") == 2):
+            # overlap on purpose: select one of this set's own fields again inside a (new)
+            # deferred fragment, so that fields end up in several defer sets at several depths
+            cands = [x for x in sels if not x.startswith("...") and x != "__typename"
+                     and 'label: "S' not in x]
+            if cands:
+                txt = cands[t.draw(len(cands), "echo_pick")]
+                fp_ = self.field_parts.get(txt)
+                if fp_ is not None and t.draw(2, "echo_subset"):
+                    # only part of the sub-selection, so the two fragments differ in content
+                    head, parts = fp_
+                    keep = [x for x in parts if t.draw(2, "echo_keep")] or parts[:1]
+                    txt = head + " { " + " ".join(keep) + " }"
+                    self.features.add("echo_subset")
+                txt = _strip_defer_labels(txt)
+                if t.draw(2, "echo_flat"):
+                    txt = _strip_defers(txt)
+                self.nlabel += 1
+                lab = f"L{self.nlabel}"
+                self.labels_parent[lab] = "?" if ctx.get("in_frag") else ctx.get("defer_label")
+                wrap = ("... @defer(label: \"%s\")" % lab) if t.draw(3, "echo_lab") else "... @defer"
+                if wrap == "... @defer":
+                    self.nlabel -= 1
+                    del self.labels_parent[lab]
+                sels.insert(t.draw(len(sels) + 1, "echo_pos"), f"{wrap} {{ {txt} }}")
+                self.features.add("echo_overlap")
+                self.features.add("defer")
+        self.last_sels = list(sels)
         return "{ " + " ".join(sels) + " }"
 
     def operation(self, kind="query", no_propagation=None):
@@ -632,6 +667,28 @@ class DocGen:
     def variables_for(self, opname):
         used = next(op[3] for op in self.ops if op[0] == opname)
         return {k: v for k, v in self.var_values.items() if k in used}
+
+
+_LABEL_RE = None
+
+
+def _strip_defer_labels(txt):
+    """Remove labels of @defer directives (labels must stay unique in a document)."""
+    import re
+
+    global _LABEL_RE
+    if _LABEL_RE is None:
+        _LABEL_RE = (re.compile(r'@defer\(label: "L\d+"\)'),
+                     re.compile(r'(@defer\([^)]*?), label: "L\d+"'))
+    txt = _LABEL_RE[0].sub("@defer", txt)
+    txt = _LABEL_RE[1].sub(r"\1", txt)
+    return txt
+
+
+def _strip_defers(txt):
+    import re
+
+    return re.sub(r' ?@defer(\([^)]*\))?', "", txt)
 
 
 def hash_text(s):
